@@ -4,7 +4,7 @@ import json
 META = {
     "level": "model_checking",
     "technique": "TLA+ transcription of CopyFuture::poll/forward_data model-checked (prefix, byte bound, stall/ok/err obligations, refinement of the ordered pipe-or-fail ByteStream, canary); traces of the real CopyFuture between two scripted pipes validated by TLC against the property-level trace spec",
-    "text": "TLC exhaustively checks the transcribed copy loop (2 directions, BufReader capacity 1-2, max_circuit_bytes 0/1/2, all client write / transport delivery / write-budget / close / timer interleavings between polls) for: forwarded bytes are an exact prefix, never more than max + 2 read buffers forwarded, no stall above the limit or after the timer fired, nothing held back at a stall, Ok only when everything was forwarded within the limit; it also checks step refinement of ByteStream and rejects a canary (budget counted for one direction). The real CopyFuture (relay `verif::copy_future`) is driven between two scripted pipes with exhaustive short op sequences and seeded random long ones (writes up to 40000 bytes, chunked delivery, partial-write budgets, closes, injected I/O faults, real 60-140 ms Delay) and every recorded run is validated by TLC against TraceCopy.",
+    "text": "TLC exhaustively checks the transcribed copy loop (2 directions, BufReader capacity 1-2, max_circuit_bytes 1 (quick) and 0/1/2 (thorough), all client write / transport delivery / write-budget / close / timer interleavings between polls) for: forwarded bytes are an exact prefix, never more than max + 2 read buffers forwarded, no stall above the limit or after the timer fired, nothing held back at a stall, Ok only when everything was forwarded within the limit; it also checks step refinement of ByteStream and rejects a canary (budget counted for one direction). The real CopyFuture (relay `verif::copy_future`) is driven between two scripted pipes with exhaustive short op sequences and seeded random long ones (writes up to 40000 bytes, chunked delivery, partial-write budgets, closes, injected I/O faults, real 60-140 ms Delay) and every recorded run is validated by TLC against TraceCopy.",
     "note": "One read buffer = 8192 bytes (futures BufReader default) is a parameter of the trace spec. Duration: lower bound measured; 'ends once the duration has passed' is checked by waiting for the real Delay to wake the task (up to 10 s) and requiring the next poll to end.",
     "design_ref": "6/C49",
 }
@@ -13,9 +13,9 @@ META = {
 def run(c):
     c.tlc_mc("ByteStream", "MCByteStream.cfg")
     c.tlc_mc("CopyLoop", "MCCopyLoop.cfg")
-    c.tlc_mc("CopyLoop", "MCCopyLoop0.cfg")
     c.tlc_mc("CopyLoop", "MCCopyLoop_canary.cfg", expect=["Bound", "StalledWithin", "OkComplete"])
     if not c.quick:
+        c.tlc_mc("CopyLoop", "MCCopyLoop0.cfg", timeout=1500)      # max_circuit_bytes = 0: unlimited
         c.tlc_mc("CopyLoop", "MCCopyLoop2.cfg", timeout=1500)
         c.tlc_mc("CopyLoop", "MCCopyLoop3.cfg", timeout=1500)
     drv = c.build("drv-copy")
